@@ -55,7 +55,7 @@ python3 - "$D" "$id" "$v" "$caught" "$detail" "$checks" <<'PY'
 import json,sys,re
 D,id,v,caught,detail,checks=sys.argv[1:7]
 import os
-rp=f'/tmp/wt-{id}/OUT/'+('README2.md' if v in ('c','d') else 'README3.md' if v in ('e','f') else 'README4.md' if v in ('g','h') else 'README3.md' if v in ('e','f') else 'README3.md' if v in ('e','f') else 'README3.md' if v in ('e','f') else 'README3.md' if v in ('e','f') else 'README3.md' if v in ('e','f') else 'README3.md' if v in ('e','f') else 'README3.md' if v in ('e','f') else 'README3.md' if v in ('e','f') else 'README3.md' if v in ('e','f') else 'README3.md' if v in ('e','f') else 'README3.md' if v in ('e','f') else 'README.md')
+rp=f'/tmp/wt-{id}/OUT/'+('README2.md' if v in ('c','d') else 'README3.md' if v in ('e','f') else 'README4.md' if v in ('g','h') else 'README5.md' if v in ('i','j') else 'README3.md' if v in ('e','f') else 'README3.md' if v in ('e','f') else 'README3.md' if v in ('e','f') else 'README3.md' if v in ('e','f') else 'README3.md' if v in ('e','f') else 'README3.md' if v in ('e','f') else 'README3.md' if v in ('e','f') else 'README3.md' if v in ('e','f') else 'README3.md' if v in ('e','f') else 'README3.md' if v in ('e','f') else 'README3.md' if v in ('e','f') else 'README.md')
 readme=open(rp).read() if os.path.exists(rp) else ''
 meta={"breaks_property":id,"variant":v,"source":"independent sub-agent given only the property text and a scratch worktree",
  "needs_to_manifest":"see description",
